@@ -98,17 +98,31 @@ func vh_C03_L4_forward_tsn_sanity() {
 	il := vPick(2) == 1
 	a, _ := vNewAssocOpts(vAssocOpts{interleaving: il})
 	a.useForwardTSN, a.useIForwardTSN = !il, il
+	// bit positions concrete, word positions symbolic (see vh_C05_bmc_gaps): cum = 64k + r
+	a.payloadQueue.init(nondetU32()&^63 | []uint32{62, 59, 63}[vPick(3)])
 	cum := a.peerLastTSN()
 	vassert(vDeliver(a, vDataChunk(a, cum+1, 4, false, 2)) == nil, "inbound data")
 	cum = a.peerLastTSN()
 	held := a.streams[4]
+	// optionally a chunk held out of order above the cumulative point (a hole below it)
+	above := uint32(0)
+	if vPick(2) == 1 {
+		above = []uint32{3, 10, 14, 70}[vPick(4)]
+		vassert(vDeliver(a, vDataChunk(a, cum+above, 7, true, 1)) == nil, "out-of-order data")
+		a.ackState = ackStateIdle
+	}
 	if vPick(2) == 1 {
 		for len(a.acceptCh) < cap(a.acceptCh) { // the application is not accepting streams
 			a.acceptCh <- held
 		}
 	}
-	newCum := nondetU32()
-	vassume(newCum-cum != 1<<31)
+	var newCum uint32
+	if above != 0 {
+		newCum = cum + []uint32{0, 1, 2, 6, 9, 66, 200}[vPick(7)]
+	} else {
+		newCum = nondetU32()
+		vassume(newCum-cum != 1<<31)
+	}
 	si := nondetU16()
 	var c chunk
 	if il {
@@ -122,10 +136,17 @@ func vh_C03_L4_forward_tsn_sanity() {
 	if behind {
 		vassert(a.peerLastTSN() == cum, "a forward-TSN at or behind the cumulative point does not move it")
 		vassert(a.ackState == ackStateImmediate, "but is answered with an immediate SACK")
+	} else if above != 0 && cum+above == newCum+1 {
+		vassert(a.peerLastTSN() == newCum+1, "the cumulative point moves to the new cumulative TSN and on over the contiguous TSN already received")
 	} else {
 		vassert(a.peerLastTSN() == newCum, "the cumulative point becomes the new cumulative TSN")
 	}
 	vassert(!a.willSendAbort, "no ABORT for a well-formed forward-TSN of the negotiated kind")
+	if above != 0 && !behind && vBefore(newCum+1, cum+above) && newCum-cum < 1<<30 {
+		// the forward-TSN stops below the chunk held out of order: it must stay tracked
+		// (otherwise it would vanish from the gap report and be accepted twice)
+		vassert(a.payloadQueue.hasChunk(cum+above) && a.payloadQueue.size() == 1, "a TSN received above the new cumulative point stays tracked")
+	}
 	if si != 4 {
 		vassert(held.getNumBytesInReassemblyQueue() == 2 && held.reassemblyQueue.isReadable(), "a complete message on another stream stays readable")
 	} else {
